@@ -1,1 +1,24 @@
 //! Verification hooks: entry (see mod.rs).
+//!
+//! C11: the dispatch table of a contract's generated `__entry` function (the `_method_names`
+//! literal and, per method, the `(length, offset)` pair compared with `meq`) is built inline in
+//! `AbiEncodingAutoImplContext::generate_contract_entry`. When the environment variable
+//! `SWAY_VERIF_DUMP_ENTRY=<file>` is set, the generated source text is appended to that file at the
+//! point where it is produced, followed by a line `//--SWAY_VERIF_ENTRY_END--`. Nothing else changes.
+
+/// Marker line written after every dumped `__entry` source.
+pub const ENTRY_END_MARKER: &str = "//--SWAY_VERIF_ENTRY_END--";
+
+/// Append `code` (the generated contract `__entry` source) to `$SWAY_VERIF_DUMP_ENTRY`, if set.
+pub fn dump_contract_entry_source(code: &str) {
+    if let Ok(path) = std::env::var("SWAY_VERIF_DUMP_ENTRY") {
+        use std::io::Write;
+        if let Ok(mut f) = std::fs::OpenOptions::new()
+            .create(true)
+            .append(true)
+            .open(path)
+        {
+            let _ = writeln!(f, "{code}\n{ENTRY_END_MARKER}");
+        }
+    }
+}
